@@ -33,8 +33,9 @@ MODULES = {
         "eval": "E_distances.v",
     },
     "layouts": {"path": "umap/layouts.py", "functions": ["clip", "rdist"], "sigs": {}, "files": ["L_layouts.v"]},
-    "umap_sup": {"path": "umap/umap_.py", "functions": ["fast_intersection"],
-                 "sigs": {"fast_intersection": {"args": {"rows": VZ, "cols": VZ, "values": V, "target": VZ, "unknown_dist": F, "far_dist": F}}},
+    "umap_sup": {"path": "umap/umap_.py", "functions": ["fast_intersection", "make_epochs_per_sample"],
+                 "sigs": {"fast_intersection": {"args": {"rows": VZ, "cols": VZ, "values": V, "target": VZ, "unknown_dist": F, "far_dist": F}},
+                          "make_epochs_per_sample": {"args": {"weights": V, "n_epochs": I}}},
                  "files": ["L_supervised.v"]},
     "utils": {"path": "umap/utils.py", "functions": ["tau_rand_int", "norm"], "sigs": {"tau_rand_int": {"args": {"state": VZ}}},
               "files": ["L_utils.v"]},
